@@ -233,6 +233,8 @@ class DefaultPredictionStrategy(object):
 
         if isinstance(full_output, MultitaskMultivariateNormal):
             full_mean = full_mean.view(*target_batch_shape, -1, num_tasks).contiguous()
+            # the strategy flattens its labels itself, keeping everything before the (point, task) dimensions as batch
+            full_targets = full_targets.view(*target_batch_shape, -1, num_tasks)
 
         # Create new DefaultPredictionStrategy object
         fant_strat = self.__class__(
